@@ -1,7 +1,7 @@
 #!/bin/sh
 # usage: seeded_save.sh <ID> <n> <needs> <ran> <result>
-d=/verif/seeded/$1-$2; mkdir -p $d
-cp /tmp/wt-$1/SEEDED/$2/patch.diff /tmp/wt-$1/SEEDED/$2/*_test.go /tmp/wt-$1/SEEDED/$2/DEMO.md /tmp/wt-$1/SEEDED/$2/NOTES.md $d/ 2>/dev/null
+d=/verif/seeded/$1-$(($2+${SEEDED_OFF:-0})); mkdir -p $d
+cp ${SEEDED_WT:-/tmp/wt-$1}/SEEDED/$2/patch.diff ${SEEDED_WT:-/tmp/wt-$1}/SEEDED/$2/*_test.go ${SEEDED_WT:-/tmp/wt-$1}/SEEDED/$2/DEMO.md ${SEEDED_WT:-/tmp/wt-$1}/SEEDED/$2/NOTES.md $d/ 2>/dev/null
 # demo copies must not be picked up as Go packages of anything
 for f in $d/*_test.go; do [ -f "$f" ] && mv "$f" "$f.txt"; done
 python3 - "$d" "$1" "$3" "$4" "$5" <<'PY'
